@@ -10,7 +10,8 @@ from vlib import c20_lib
 
 ID = 'C20'
 LEVEL = 'exploration'
-RULE = ('A case = initial values of 1-2 rows (int, nullable int, str, Decimal, bool, reference, float, volatile, optimistic=False '
+RULE = ('A case = initial values of 1-2 rows (int, nullable int, str, Decimal, bool, reference, two-column reference to a '
+        'composite-key entity declared in front of the other attributes, float, volatile, optimistic=False '
         'attributes) + 2-3 session scripts (fetch by E[pk]/get/select/get_for_update/select().for_update(), attribute reads, '
         'to_dict, get(**kw)/select filters, assignments, set(**kw), read-modify-write, dependent writes, delete, flush, commit() in '
         'the middle of the db_session, leaving and re-entering db_session on the same Database; end = commit/rollback/exception; '
@@ -50,7 +51,7 @@ def _strategies():
     c = st.integers(0, 11)
     obj = st.sampled_from([0, 0, 0, 1])
     # a few "hot" attributes attract most reads and writes
-    attr = st.one_of(st.sampled_from([0, 3, 4]), st.sampled_from([0, 0, 1, 2, 5, 6]), st.integers(0, len(c20_lib.NAMES) - 1))
+    attr = st.one_of(st.sampled_from([0, 3, 4]), st.sampled_from([0, 0, 1, 2, 5, 6, 10, 10]), st.integers(0, len(c20_lib.NAMES) - 1))
     ops = {
         'get': st.tuples(st.just('get'), obj, st.integers(0, len(c20_lib.GET_HOWS) - 1)),
         'read': st.tuples(st.just('read'), obj, attr),
@@ -136,7 +137,9 @@ def race_strategy():
             tw = ['del', o]
         writer = draw(filler) + [tw] + (draw(filler) if t_kind != 'del' else [])
         pre = draw(filler)
-        reader = pre + [rd] + draw(filler) + [wr] + draw(filler)
+        also = draw(st.sampled_from([[], [], [['read', o, c20_lib.NAMES.index('h')]], [['read', o, draw(attr)]]]))
+        # a second read attribute: multi-attribute (and multi-column) WHERE clauses
+        reader = pre + also + [rd] + draw(filler) + [wr] + draw(filler)
         actors = [{'session': draw(session), 'ops': reader, 'end': draw(end)},
                   {'session': draw(session), 'ops': writer, 'end': 'commit'}]
         r, w = 0, 1
@@ -144,7 +147,7 @@ def race_strategy():
             actors[0], actors[1] = actors[1], actors[0]
             r, w = 1, 0
         # the canonical lost-update interleaving (reader up to its read, the whole writer, the rest of the reader), perturbed
-        sch = [r] * (len(pre) + 1) + [w] * (len(writer) + 1) + [r] * (len(reader) - len(pre))
+        sch = [r] * (len(pre) + len(also) + 1) + [w] * (len(writer) + 1) + [r] * (len(reader) - len(pre) - len(also))
         if draw(st.integers(0, 3)) == 0:
             actors.append({'session': draw(session), 'ops': draw(st.lists(op, min_size=1, max_size=5)), 'end': draw(end)})
             for pos in draw(st.lists(st.integers(0, len(sch)), max_size=6)):
@@ -176,7 +179,7 @@ def special_strategy():
         rows = [draw(row), draw(row)]
         sep = [draw(st.sampled_from(['commit', 'commit', 'restart']))]
         if kind == 'nullcache':
-            x = draw(st.sampled_from([names.index('m'), names.index('g')]))
+            x = draw(st.sampled_from([names.index('m'), names.index('g'), names.index('h')]))
             b = draw(st.sampled_from([names.index(a) for a in ('n', 'k', 's', 'd', 'b')]))
             null_first = draw(st.sampled_from([True, True, False]))
             p, t = draw(st.sampled_from([(1, 0), (0, 1)]))
